@@ -197,11 +197,20 @@ def gen():
 
 # ------------------------------------------------------------------ pipeline ----
 def sh(cmd, cwd=None, env=None, timeout=1800):
+    # own process group: a mutant can make a test binary loop forever, and killing only
+    # cargo would leave that grandchild running (it happened: one ate two cores for a day)
+    import signal
+    p = subprocess.Popen(cmd, cwd=cwd, env=env or ENV, stdout=subprocess.PIPE, stderr=subprocess.STDOUT, text=True, start_new_session=True)
     try:
-        p = subprocess.run(cmd, cwd=cwd, env=env or ENV, stdout=subprocess.PIPE, stderr=subprocess.STDOUT, text=True, timeout=timeout)
-        return p.returncode, p.stdout
-    except subprocess.TimeoutExpired as e:
-        return 124, (e.stdout or "") if isinstance(e.stdout, str) else ""
+        out, _ = p.communicate(timeout=timeout)
+        return p.returncode, out
+    except subprocess.TimeoutExpired:
+        try:
+            os.killpg(p.pid, signal.SIGKILL)
+        except OSError:
+            pass
+        p.wait()
+        return 124, ""
 
 
 class Slot:
